@@ -23,6 +23,11 @@ TEXTS = {
     'raw': ('not json at all', 'not json at all', None),
     'outdated_client': ('{"text": "Outdated client! Please use 1.16.5"}', None, '1.16.5'),
     'outdated_server': ("Outdated server! I'm still on 1.8.9", None, '1.8.9'),
+    'jsonstr': ('"You are not whitelisted"', 'You are not whitelisted', None),
+    'jsonarr': ('["kicked", {"text": "x"}]', 'kicked', None),
+    'jsonnull': ('null', 'null', None),
+    'jsonnum': ('42', '42', None),
+    'jsonnotext': ('{"translate": "multiplayer.disconnect.banned"}', 'multiplayer.disconnect.banned', None),
 }
 _KEY = {}
 
